@@ -312,7 +312,7 @@ def check_table(acc: Acc):
 
 
 def shards(tier):
-    n = 25 if tier == "quick" else 400
+    n = 80 if tier == "quick" else 800
     sigs = SIGS + ["assume(bool)"] * 3
     out = [{"sigs": sigs[k::15], "n": n} for k in range(15)]
     out.append({"table": True})
